@@ -468,6 +468,12 @@ impl MorselAggregateExec {
                     return Ok(None);
                 };
                 use parquet::file::statistics::Statistics;
+                // The dense table has no slot for the NULL group: decline (the
+                // generic morsel path groups NULL keys) unless the footer
+                // proves the key column is NULL-free.
+                if stats.null_count_opt() != Some(0) {
+                    return Ok(None);
+                }
                 let (lo, hi) = match stats {
                     Statistics::Int64(s) => match (s.min_opt(), s.max_opt()) {
                         (Some(a), Some(b)) => (*a, *b),
